@@ -12,6 +12,34 @@ func runGen2(name string, w *bufio.Writer, rng *prng, n, depth int) bool {
 		genPrinterRandom(w, rng, n, depth, true)
 	case "printer-clean":
 		genPrinterRandom(w, rng, n, depth, false)
+	case "q01":
+		genQ01(w, rng, n, depth)
+	case "q02":
+		genQ02(w, rng, n, depth)
+	case "q04":
+		genQ04(w, rng, n, depth)
+	case "q05":
+		genQ05(w, rng, n, depth)
+	case "q06":
+		genQ06(w, rng, n, depth)
+	case "q08":
+		genQ08(w, rng, n, depth)
+	case "q09":
+		genQ09(w, rng, n, depth)
+	case "q11":
+		genQ11(w, rng, n, depth)
+	case "q12":
+		genQ12(w, rng, n, depth, false)
+	case "q12-baseline":
+		genQ12(w, rng, n, depth, true)
+	case "q14":
+		genQ14(w, rng, n, depth)
+	case "q15":
+		genQ15(w, rng, n, depth)
+	case "q16":
+		genQ16(w, rng, n, depth)
+	case "q17":
+		genQ17(w, rng, n, depth)
 	default:
 		return false
 	}
